@@ -403,8 +403,41 @@ func refMatDecode(data []byte, vec, stream bool) (h matHeader, reason string) {
 	return h, ""
 }
 
+// checkMatDenseBytes / checkMatVecBytes are the byte-level sub-checks
+// matdense-total and matvec-total: the input goes through UnmarshalBinary and
+// through UnmarshalBinaryFrom with three kinds of reader.
+func checkMatDenseBytes(c vk.BytesCase) *vk.Failure {
+	vk.Sample("matdense-total", c)
+	return checkMatAllAPIs("matdense-total", false, c.Data)
+}
+
+func checkMatVecBytes(c vk.BytesCase) *vk.Failure {
+	vk.Sample("matvec-total", c)
+	return checkMatAllAPIs("matvec-total", true, c.Data)
+}
+
+func checkMatAllAPIs(sub string, vec bool, data []byte) *vk.Failure {
+	if len(data) > maxBytesCase {
+		vk.Class("total mat skipped: input longer than 4096 bytes")
+		return nil
+	}
+	var first *vk.Failure
+	for api := 0; api < 4; api++ {
+		f := checkMatBytes(matBytesCase{Vec: vec, Stream: api, Data: data})
+		if f == nil {
+			continue
+		}
+		if !openKnown[sub+"/"+f.Key] {
+			return f // a failure that is not a recorded finding takes precedence
+		}
+		if first == nil {
+			first = f
+		}
+	}
+	return first
+}
+
 func checkMatBytes(c matBytesCase) *vk.Failure {
-	vk.Sample("mat-total", c)
 	kind := "Dense"
 	if c.Vec {
 		kind = "VecDense"
@@ -432,7 +465,7 @@ func checkMatBytes(c matBytesCase) *vk.Failure {
 	}
 	vk.Class("total mat " + kind + " " + []string{"bytes", "stream"}[min(c.Stream, 1)] + " " + label)
 	if reason != "short-header" && reason != "version" {
-		vk.NonTrivial("mat-total", c.Vec, c.Stream, string(c.Data))
+		vk.NonTrivial("mat-total", c.Vec, string(c.Data))
 	}
 
 	var d mat.Dense
@@ -551,8 +584,12 @@ func checkMatBytes(c matBytesCase) *vk.Failure {
 
 var matHotDims = []int64{-1, 0, 1, 2, 3, 8, 1 << 31, 1 << 32, 1<<61 + 1, 1<<63 - 1, -1 << 63, 1 << 62, 1 << 61, 1<<32 + 1, 1<<60 + 1, 1<<24 + 1, 1 << 24, 3037000500}
 
-func drawMatBytes(t *rapid.T) matBytesCase {
-	c := matBytesCase{Vec: rapid.Bool().Draw(t, "vec"), Stream: rapid.IntRange(0, 3).Draw(t, "api")}
+func drawMatBytes(vec bool) func(t *rapid.T) vk.BytesCase {
+	return func(t *rapid.T) vk.BytesCase { return vk.BytesCase{Data: drawMatBytes1(t, vec).Data} }
+}
+
+func drawMatBytes1(t *rapid.T, vec bool) matBytesCase {
+	c := matBytesCase{Vec: vec}
 	validEnc := func(label string) []byte {
 		r := rapid.IntRange(1, 4).Draw(t, label+"_r")
 		cc := 1
@@ -645,21 +682,19 @@ func drawMatBytes(t *rapid.T) matBytesCase {
 }
 
 func TestMatTotality(t *testing.T) {
-	// truncation of a valid encoding at every length, all APIs
-	var cases []matBytesCase
+	// truncation of a valid encoding at every length, and one byte too many
 	for _, vec := range []bool{false, true} {
-		cc := 3
+		cc, sub, check := 3, "matdense-total", checkMatDenseBytes
 		if vec {
-			cc = 1
+			cc, sub, check = 1, "matvec-total", checkMatVecBytes
 		}
 		enc := refMatEncode(2, cc, func(i, j int) float64 { return float64(i*3+j) + 0.5 })
-		for api := 0; api < 4; api++ {
-			for l := 0; l <= len(enc); l++ {
-				cases = append(cases, matBytesCase{vec, api, enc[:l]})
-			}
-			cases = append(cases, matBytesCase{vec, api, append(append([]byte(nil), enc...), 0)})
+		var cases []vk.BytesCase
+		for l := 0; l <= len(enc); l++ {
+			cases = append(cases, vk.BytesCase{Data: enc[:l]})
 		}
+		cases = append(cases, vk.BytesCase{Data: append(append([]byte(nil), enc...), 0)})
+		vk.Enumerate(t, sub, len(cases), func(i int) vk.BytesCase { return cases[i] }, check)
+		vk.Run(t, sub, vk.Opts{Quick: 16000, Thorough: 320000, NoCrumb: true}, drawMatBytes(vec), check)
 	}
-	vk.Enumerate(t, "mat-total", len(cases), func(i int) matBytesCase { return cases[i] }, checkMatBytes)
-	vk.Run(t, "mat-total", vk.Opts{Quick: 80000, Thorough: 1600000, NoCrumb: true}, drawMatBytes, checkMatBytes)
 }
